@@ -144,9 +144,9 @@ struct Impl {
     tids: [String; 2],
 }
 
-fn new_impl(backend: &str, max_retry: i32) -> Impl {
+fn new_impl(backend: &str, max_retry: i32, keep: bool) -> Impl {
     let cfg = Cfg {
-        keep: true,
+        keep,
         sqlite: if backend == "sqlite" { Some(scratch_path("db")) } else { None },
         tick_secs: Some(INTERVAL_S),
         max_retry: Some(max_retry),
@@ -238,8 +238,8 @@ fn observe(im: &Impl) -> BTreeMap<usize, (u8, i32)> {
 
 pub struct C09;
 
-fn explore(backend: &'static str, max_retry: i32, depth: usize, out: &mut ItemOut) {
-    let scen = format!("ack/{backend}/max{max_retry}/depth{depth}");
+fn explore(backend: &'static str, max_retry: i32, depth: usize, keep: bool, out: &mut ItemOut) {
+    let scen = format!("ack/{backend}{}/max{max_retry}/depth{depth}", if keep { "+keep" } else { "" });
     let mut seen: BTreeSet<Ref> = BTreeSet::new();
     let mut queue: VecDeque<(Ref, Vec<Op>)> = VecDeque::new();
     let init = {
@@ -264,7 +264,7 @@ fn explore(backend: &'static str, max_retry: i32, depth: usize, out: &mut ItemOu
         }
         for op in ops_of(&s) {
             // execute path + op on a fresh engine
-            let mut im = new_impl(backend, max_retry);
+            let mut im = new_impl(backend, max_retry, keep);
             // initial deliveries: stored before the handler ran?
             for (id, retry, stored, _) in im.deliveries.lock().unwrap().iter() {
                 if *retry == 0 && !stored {
@@ -424,13 +424,19 @@ impl Check for C09 {
                     (Tier::Thorough, "memory") => 7,
                     (Tier::Thorough, _) => 6,
                 };
-                v.push(json!({"id": format!("ack/{backend}/max{max}/depth{depth}"), "backend": backend, "max": max, "depth": depth}));
+                // finished processes stay cached with keep_processes; without it the cache runs empty
+                for keep in [false, true] {
+                    if keep && backend == "sqlite" && tier == Tier::Quick {
+                        continue;
+                    }
+                    v.push(json!({"id": format!("ack/{backend}{}/max{max}/depth{depth}", if keep { "+keep" } else { "" }), "backend": backend, "max": max, "depth": depth, "keep": keep}));
+                }
             }
         }
         v
     }
     fn run_item(&self, _tier: Tier, item: &Value, out: &mut ItemOut) {
         let backend: &'static str = if item["backend"] == "sqlite" { "sqlite" } else { "memory" };
-        explore(backend, item["max"].as_i64().unwrap() as i32, item["depth"].as_u64().unwrap() as usize, out);
+        explore(backend, item["max"].as_i64().unwrap() as i32, item["depth"].as_u64().unwrap() as usize, item["keep"].as_bool().unwrap_or(true), out);
     }
 }
